@@ -283,10 +283,23 @@ func c18Prog(op c18Op) Result {
 			c18Features(st.Attrs, feat)
 			recBuf.Reset()
 			jsonBuf.Reset()
-			en := h.Enabled(ctx, slog.Level(st.Lvl))
+			// the context must not matter (slog: "canceling the context should not affect record processing"): every third
+			// record is handled under an already cancelled context, every third under an expired one
+			hctx := ctx
+			switch len(outs) % 3 {
+			case 1:
+				c, cancel := context.WithCancel(ctx)
+				cancel()
+				hctx = c
+			case 2:
+				c, cancel := context.WithDeadline(ctx, time.Unix(0, 0))
+				defer cancel()
+				hctx = c
+			}
+			en := h.Enabled(hctx, slog.Level(st.Lvl))
 			r := slog.NewRecord(time.Time{}, slog.Level(st.Lvl), "m", 0)
 			r.AddAttrs(c18BuildAll(st.Attrs)...)
-			herr := h.Handle(ctx, r)
+			herr := h.Handle(hctx, r)
 			out := c18Out{Enabled: en}
 			lines := bytes.Count(recBuf.Bytes(), []byte("\n"))
 			var line recLine
